@@ -243,22 +243,34 @@ class ProjectiveDrawing(Drawing):
         n_disp_1 = utils.normalize(disp_1)
         n_disp_2 = utils.normalize(disp_2)
 
+        # each piece is closed by the segment joining its two dummy
+        # vertices. The two unbounded edges of a piece leave in the
+        # directions +/-n_disp_1 and -/+n_disp_2, so they diverge by
+        # an angle theta with cos(theta) = -<n_disp_1, n_disp_2>, and
+        # the closing segment only stays off-screen if the dummy
+        # vertices are pushed out by an extra factor 1 / cos(theta/2)
+        # (a point at distance r in the piece can need a + b =
+        # r / cos(theta/2) along the two edge directions).
+        cos_half = np.sqrt(np.clip(
+            (1 - np.sum(n_disp_1 * n_disp_2, axis=-1)) / 2, 1e-12, None))
+        far = (1 / cos_half)[:, np.newaxis]
+
         # compute dummy vertex coordinates for segments which cross infinity.
         # this could be DRYer.
-        dummy_p1v1 = s1_v2 + (
+        dummy_p1v1 = s1_v2 + far * (
             n_disp_1 * (self.view_diam() +
                         np.linalg.norm(s1_v2 - self.view_ctr(), axis=-1))[:, np.newaxis]
         )
-        dummy_p2v1 = s1_v1 - (
+        dummy_p2v1 = s1_v1 - far * (
             n_disp_1 * (self.view_diam() +
                         np.linalg.norm(s1_v1 - self.view_ctr(), axis=-1))[:, np.newaxis]
         )
 
-        dummy_p1v2 = s2_v1 - (
+        dummy_p1v2 = s2_v1 - far * (
             n_disp_2 * (self.view_diam() +
                         np.linalg.norm(s2_v1 - self.view_ctr(), axis=-1))[:, np.newaxis]
         )
-        dummy_p2v2 = s2_v2 + (
+        dummy_p2v2 = s2_v2 + far * (
             n_disp_2 * (self.view_diam() +
                         np.linalg.norm(s2_v2 - self.view_ctr(), axis=-1))[:, np.newaxis]
         )
